@@ -156,6 +156,36 @@ def check_render_goes_through_the_vm(ctx, prog, tag):
     return n
 
 
+def check_replaced_error_keeps_its_cause(ctx, prog, tag, crates=("minijinja",), err_ty="minijinja::error::Error",
+                                         rule="C13.G10.an-error-that-replaces-another-keeps-it-as-its-cause"):
+    """G10 (round 12, seed C13-12): when the budget runs out inside an include, an import or a parent block reached
+    through `super()`, the out-of-fuel error travels outwards wrapped (`BadInclude`, `EvalBlock` with the original as
+    `source()`); the render "fails with an out-of-fuel error" only as long as no wrapper lets the original go.  In
+    every function or closure of the engine that takes an engine error by value and returns an engine error, the
+    incoming error is not dropped on any path (it is returned, or moved into the new error as its source).  A rule
+    with no instance on the unchanged tree: positive control in controls::c13."""
+    n = 0
+    for f in sorted(prog.fns.values(), key=lambda x: x.path):
+        if f.crate not in crates:
+            continue
+        ret = f.locals[0].get("s", "")
+        if err_ty not in ret:
+            continue
+        ps = [i for i in range(1, f.argc + 1) if f.locals[i].get("s", "") == err_ty]
+        if not ps:
+            continue
+        n += 1
+        dropped = [bb for bb in sorted(f.reachable) if f.term(bb)["k"] == "drop" and "p" not in f.term(bb)["place"]
+                   and f.term(bb)["place"]["l"] in ps]
+        nm = f.path.split("::", 2)[-1] if f.kind == "closure" else "::".join(f.path.split("::")[-2:])
+        ctx.ob(rule, tag + nm, not dropped,
+               "%s takes an error and returns another one, and on some path the incoming error is dropped instead of being "
+               "kept as the cause: an out-of-fuel error raised below it disappears from the error chain and the render fails "
+               "with a different error" % nm, f.where(dropped[0]) if dropped else f.loc)
+    return n
+
+
+
 def run(ctx):
     ctx.explain("C13: who-may-construct / who-may-read rules for the fuel tracker, a must-pass-through rule placing "
                 "the charge between instruction fetch and dispatch on every loop iteration, purity of "
@@ -167,6 +197,12 @@ def run(ctx):
     prog = ctx.prog
     n9 = check_render_goes_through_the_vm(ctx, prog, "")
     ctx.floor("C13.G9 functions of the render family", n9, 5)
+    n10 = check_replaced_error_keeps_its_cause(ctx, prog, "")
+    ctx.floor("C13.G10 functions that turn one engine error into another", n10, 10)
+    sub10 = ctx.fresh()
+    n10c = check_replaced_error_keeps_its_cause(sub10, ctx.controls, "control:", crates=("mjsa_controls",), err_ty="mjsa_controls::c13::Error")
+    bad10 = [o for o in sub10.obligations if not o[2]]
+    ctx.control("C13.G10", n10c >= 2 and len(bad10) == 1 and "wrap_and_lose_the_cause" in bad10[0][1])
     # the interpreter loop and the tracker's charge are read through private helpers a maintainer may have split them
     # into (`state.track_fuel(instr)`, `self.consume(cost)`); the functions the rules look for stay calls
     ev = inline.view(prog, prog.fn(EVAL_IMPL), keep=lambda t: not (t.startswith("minijinja::vm::state::State::") or t.startswith("minijinja::vm::fuel::"))
